@@ -1,6 +1,7 @@
 #!/usr/bin/env python
 """Module containing simulation result classes."""
 
+import copy
 import os.path
 from collections.abc import Iterable
 from typing import (Any, Dict, Iterator, List, Optional, Tuple, TypedDict,
@@ -1130,10 +1131,11 @@ class SimulationResults(JsonSerializable):
         results of two simulations for the exact same parameters.
         """
         # If the current SimulationResults object is empty, we basically
-        # copy the Result objects from other
+        # copy the Result objects from other. Note that they must really
+        # be copied, since later merges will modify them.
         if len(self) == 0:
             for name in other.get_result_names():
-                self._results[name] = other[name]
+                self._results[name] = copy.deepcopy(other[name])
         # Otherwise, we merge each Result from `self` with the Result from
         # `other`
         else:
